@@ -298,14 +298,22 @@ def check_data(case):
     comps = verify_merge(r, b.reg, b.gen, models, lambda i, j: (i, j) in edges)
     if comps is not None and not r.viol:
         # second stage: more data for the same registry, merged again (incremental use); only integrity is claimed here
+        # the relation is the same one, over the key sets the registry holds when the second call is made
         def again():
             b.reg.process_meta_data(b.gen.generate(*roots[0]), model_name="Again")
-            b.reg.merge_models(generator=b.gen)
         ok2, _ = owned(r, "second-merge", again)
         if ok2:
-            info2 = "after a second merge_models() call on the same registry:\n" + "\n".join(irx.describe(m) for m in b.reg.models)
-            pointer_integrity(r, b.reg, info2, prefix="second-merge:")
-            owned(r, "second-merge:compose", pl.structure, b.reg, False)
+            models2 = list(b.reg.models)
+            keysets2 = [set(m.type.keys()) for m in models2]
+            edges2 = {(i, j) for i in range(len(models2)) for j in range(i + 1, len(models2)) if ref_cmp(merge, keysets2[i], keysets2[j])}
+            sub = R()
+            comps2 = verify_merge(sub, b.reg, b.gen, models2, lambda i, j: (i, j) in edges2, detail_prefix="second merge_models() call on the same registry; ")
+            for clause, detail in sub.viol:
+                r.fail("second-merge:" + clause, detail)
+            if comps2 is not None and not sub.viol:
+                info2 = "after a second merge_models() call on the same registry:\n" + "\n".join(irx.describe(m) for m in b.reg.models)
+                pointer_integrity(r, b.reg, info2, prefix="second-merge:")
+                owned(r, "second-merge:compose", pl.structure, b.reg, False)
     if comps is not None:
         mx = max(len(c) for c in comps)
         if mx >= 3:
